@@ -307,11 +307,14 @@ def jacobi_forward_task(variant, alias):
     return _
 
 
-def jacobi_inverse_task(variant, alias):
+def jacobi_inverse_task(variant, alias, c):
+    """round trip, one component c per task (hypotheses about the other components are left out: the verification
+    conditions stay small enough for both z3 and the ideal-membership back end)"""
     fn = PRE + "jacobi_to_inertial_" + variant
-    comps = JAC_INV[variant]
+    comps = (c,)
+    written = JAC_INV[variant]
 
-    @P.task("jacobi.jacobi_to_inertial_%s.roundtrip.%s" % (variant, "pmass_is_particles" if alias else "pmass_separate"),
+    @P.task("jacobi.jacobi_to_inertial_%s.roundtrip.%s.%s" % (variant, "pmass_is_particles" if alias else "pmass_separate", c),
             fn=fn)
     def _(v):
         if alias:
@@ -330,7 +333,6 @@ def jacobi_inverse_task(variant, alias):
         # hypothesis: p_j is the Jacobi transform of O (forward contract), instantiated at 0 and j
         assume_all(v, slot0_post(sp, H, Na, comps, with_m=True))
         assume_all(v, jacobi_post(sp, H, j, N, Na, comps))
-
         h0, h1 = Once(), Once()
 
         def var0(L):
@@ -342,11 +344,9 @@ def jacobi_inverse_task(variant, alias):
             i = L.i
             assume_all(L, jacobi_post(sp, H, i, N, Na, comps))
             if h0.head:                   # end of the arbitrary iteration: the element just written is the original
-                for c in comps:
-                    cut(L, fn + ".loop0.written." + c, cur(c, i + 1) == sp.o(c, i + 1))
-            r = [("range_nowrap", z3.And(Na - 1 <= i, i <= N - 1, i >= 0))]
-            r += [("test_" + c, z3.Implies(z3.And(i < j, Na <= j, j < N), cur(c, j) == sp.o(c, j))) for c in comps]
-            return r
+                cut(L, fn + ".loop0.written." + c, cur(c, i + 1) == sp.o(c, i + 1))
+            return [("range_nowrap", z3.And(Na - 1 <= i, i <= N - 1, i >= 0)),
+                    ("test_" + c, z3.Implies(z3.And(i < j, Na <= j, j < N), cur(c, j) == sp.o(c, j)))]
         v.loop(fn, 0, invariant=inv0, variant=var0)
 
         def var1(L):
@@ -359,21 +359,18 @@ def jacobi_inverse_task(variant, alias):
             sp.at(L, i, comps)
             assume_all(L, jacobi_post(sp, H, i, N, Na, comps))
             if h1.head:
-                for c in comps:
-                    cut(L, fn + ".loop1.written." + c, cur(c, i + 1) == sp.o(c, i + 1))
-            r = [("range_nowrap", z3.And(0 <= i, i <= Na - 1)), ("eta", L.eta == sp.M(i + 1))]
-            r += [("s_" + c, L["s_" + c] == sp.S(c, i + 1)) for c in comps]
-            r += [("test_" + c, z3.Implies(between(Na, j, N), cur(c, j) == sp.o(c, j))) for c in comps]
-            r += [("active_" + c, z3.Implies(z3.And(i < j, j < Na), cur(c, j) == sp.o(c, j))) for c in comps]
-            return r
+                cut(L, fn + ".loop1.written." + c, cur(c, i + 1) == sp.o(c, i + 1))
+            return [("range_nowrap", z3.And(0 <= i, i <= Na - 1)), ("eta", L.eta == sp.M(i + 1)),
+                    ("s_" + c, L["s_" + c] == sp.S(c, i + 1)),
+                    ("test_" + c, z3.Implies(between(Na, j, N), cur(c, j) == sp.o(c, j))),
+                    ("active_" + c, z3.Implies(z3.And(i < j, j < Na), cur(c, j) == sp.o(c, j)))]
         v.loop(fn, 1, invariant=inv1, variant=var1)
         v.call(fn, parts.ptr, pj.ptr, pm.ptr, N, Na)
-        for c in comps:
-            v.prove("recovered.slot0." + c, cur(c, 0) == sp.o(c, 0))
+        v.prove("recovered.slot0." + c, cur(c, 0) == sp.o(c, 0))
         v.assume(1 <= j, j < N)
-        for c in comps:
-            v.prove("recovered." + c, cur(c, j) == sp.o(c, j))
-        frame(v, parts, old, comps, N)
+        v.prove("recovered." + c, cur(c, j) == sp.o(c, j))
+        if c == written[0]:
+            frame(v, parts, old, written, N)
     return _
 
 
@@ -382,4 +379,573 @@ for _variant in JAC_FWD:
         jacobi_forward_task(_variant, _alias)
 for _variant in JAC_INV:
     for _alias in (True, False):
-        jacobi_inverse_task(_variant, _alias)
+        for _c in JAC_INV[_variant]:
+            jacobi_inverse_task(_variant, _alias, _c)
+
+
+# =====================================================================================================
+# democratic heliocentric and WHDS, forward
+def acc0(c):
+    """name of the accumulator local for component c in the heliocentric functions"""
+    return c + "0"
+
+
+def helio_forward_task(system):
+    fn = PRE + "inertial_to_%s_posvel" % system
+    comps = POS + VEL
+    post = dh_post if system == "democraticheliocentric" else whds_post
+
+    @P.task("%s.inertial_to_%s_posvel" % (system, system), fn=fn)
+    def _(v):
+        N, Na, parts, ph = setup(v, ["P", "H"])
+        sp = Spec(arrays(parts, comps), parts.array("m"))
+        old = arrays(ph, FIELDS)
+        H = mem(ph)
+        j = v.int("j")
+        sp.define(v, comps)
+        v.assume(sp.M(Na) != 0)
+        if system == "whds":
+            v.assume(sp.m(0) != 0)
+
+        def inv0(L):                      # sums over the active particles
+            i = L.i
+            sp.at(L, i, comps)
+            return [("range", z3.And(0 <= i, i <= Na)), ("m0", L.m0 == sp.M(i))] + \
+                   [(acc0(c), L[acc0(c)] == sp.S(c, i)) for c in comps]
+        v.loop(fn, 0, invariant=inv0, variant=lambda L: Na - L.i)
+
+        def elems(L, lo, hi):
+            i = L.i
+            return [("range", z3.And(lo <= i, i <= hi))] + slot0_post(sp, H, Na, comps) + \
+                   [(nm, z3.Implies(j < i, f)) for nm, f in post(sp, H, j, N, Na)]
+        if system == "democraticheliocentric":
+            v.loop(fn, 1, invariant=lambda L: elems(L, 1, N), variant=lambda L: N - L.i)
+        else:
+            v.loop(fn, 1, invariant=lambda L: elems(L, 1, Na), variant=lambda L: Na - L.i)
+            v.loop(fn, 2, invariant=lambda L: elems(L, Na, N), variant=lambda L: N - L.i)
+        v.call(fn, parts.ptr, ph.ptr, N, Na)
+        prove_all(v, "", slot0_post(sp, H, Na, comps))
+        v.assume(1 <= j, j < N)
+        prove_all(v, "", post(sp, H, j, N, Na))
+        frame(v, ph, old, comps + ("m",), N)
+    return _
+
+
+helio_forward_task("democraticheliocentric")
+helio_forward_task("whds")
+
+
+# =====================================================================================================
+# democratic heliocentric and WHDS, inverse (round trip)
+DH_POS = PRE + "democraticheliocentric_to_inertial_pos"
+
+
+def helio_inverse_setup(v, c, post, need_m0, pair_nonzero=False):
+    N, Na, parts, ph = setup(v, ["P", "H"])
+    comps = (c,)
+    O = free_arrays("O", comps)
+    Om = z3.Array("O.m", I, R)
+    sp = Spec(O, Om)
+    old = arrays(parts, FIELDS)
+    H = frozen(arrays(ph, comps + ("m",)))
+    cur = mem(parts)
+    j = v.int("j")
+    sp.define(v, comps)
+    v.assume(sp.M(Na) != 0)
+    if need_m0:
+        v.assume(sp.m(0) != 0)
+        v.assume(cur("m", 0) == sp.m(0))          # particles[0].m is the central mass the forward transform used
+    if pair_nonzero:
+        k = z3.Int("k")
+        v.assume(z3.ForAll([k], z3.Implies(between(1, k, Na), z3.Select(Om, 0) + z3.Select(Om, k) != 0)))
+    assume_all(v, slot0_post(sp, H, Na, comps))
+    assume_all(v, post(sp, H, j, N, Na, comps))
+    return N, Na, parts, ph, sp, old, H, cur, j
+
+
+def mass_facts(cur, H, old, i, j, Na):
+    """linear facts about particles[.].m while/after the first loop of DH to_inertial_pos has processed 1..i-1"""
+    k = z3.Int("k")
+    return [("mass_done", z3.ForAll([k], z3.Implies(between(1, k, i), z3.Select(cur_arr(cur), k) == H("m", k)))),
+            ("mass_slot0", cur("m", 0) == z3.Select(old["m"], 0)),
+            ("mass_rest", z3.Implies(j >= i, cur("m", j) == z3.Select(old["m"], j)))]
+
+
+def cur_arr(cur):
+    return cur.av.array("m")
+
+
+def mem(av):                      # (redefinition with access to the array view, see cur_arr)
+    f = lambda c, k: av.leaf(ix(k), c)
+    f.av = av
+    return f
+
+
+def dh_pos_loops(v, c, post, N, Na, parts, sp, old, H, cur, j):
+    """invariants of the two loops of reb_particles_transform_democraticheliocentric_to_inertial_pos, component c"""
+    comps = (c,)
+    h0 = Once()
+
+    def var0(L):
+        if h0.first():
+            activate(L, DH_POS + ".loop0", post(sp, H, L.i, N, Na, comps))
+        return Na - L.i
+
+    def inv0(L):
+        i = L.i
+        sp.at(L, i, comps)
+        assume_all(L, post(sp, H, i, N, Na, comps))
+        r = [("range", z3.And(1 <= i, i <= Na))] + mass_facts(cur, H, old, i, j, Na)
+        if c in POS:
+            r.append((acc0(c), L[acc0(c)] == (sp.S(c, i) - sp.M(i) * sp.o(c, 0)) / sp.M(Na)))
+        return r
+    v.loop(DH_POS, 0, invariant=inv0, variant=var0)
+
+    def inv1(L):
+        i = L.i
+        r = [("range", z3.And(1 <= i, i <= N))]
+        if c in POS:
+            r += [("slot0_" + c, cur(c, 0) == sp.o(c, 0)),
+                  ("elem_" + c, z3.Implies(between(1, j, i), cur(c, j) == sp.o(c, j)))]
+        return r
+    v.loop(DH_POS, 1, invariant=inv1, variant=lambda L: N - L.i)
+
+
+def mass_post(v, sp, cur, old, j, Na):
+    v.prove("mass.active_from_transformed_set", z3.Implies(j < Na, cur("m", j) == sp.m(j)))
+    v.prove("mass.test_unchanged", z3.Implies(j >= Na, cur("m", j) == z3.Select(old["m"], j)))
+    v.prove("mass.slot0_unchanged", cur("m", 0) == z3.Select(old["m"], 0))
+
+
+def helio_inverse_pos_task(system, c):
+    fn = PRE + "%s_to_inertial_pos" % system
+    post = dh_post if system == "democraticheliocentric" else whds_post
+
+    @P.task("%s.%s_to_inertial_pos.roundtrip.%s" % (system, system, c), fn=fn)
+    def _(v):
+        N, Na, parts, ph, sp, old, H, cur, j = helio_inverse_setup(v, c, post, need_m0=False)
+        dh_pos_loops(v, c, post, N, Na, parts, sp, old, H, cur, j)
+        v.call(fn, parts.ptr, ph.ptr, N, Na)
+        v.prove("recovered.slot0." + c, cur(c, 0) == sp.o(c, 0))
+        v.assume(1 <= j, j < N)
+        v.prove("recovered." + c, cur(c, j) == sp.o(c, j))
+        if c == "x":
+            mass_post(v, sp, cur, old, j, Na)
+            frame(v, parts, old, POS + ("m",), N)
+    return _
+
+
+def vel_sum(sp, c, i, Na):
+    """sum_{1<=k<i} m_k (v_k - COM_v(N_active)) / m_0 in terms of the prefix sums"""
+    return (sp.S(c, i) - sp.S(c, 1) - (sp.M(i) - sp.M(1)) * sp.com(c, Na)) / sp.m(0)
+
+
+def helio_inverse_posvel_task(system, c):
+    fn = PRE + "%s_to_inertial_posvel" % system
+    whds = system == "whds"
+    post = whds_post if whds else dh_post
+
+    @P.task("%s.%s_to_inertial_posvel.roundtrip.%s" % (system, system, c), fn=fn)
+    def _(v):
+        N, Na, parts, ph, sp, old, H, cur, j = helio_inverse_setup(v, c, post, need_m0=True, pair_nonzero=whds)
+        comps = (c,)
+        dh_pos_loops(v, c, post, N, Na, parts, sp, old, H, cur, j)
+
+        def head(L, tag):
+            """loop head of an iteration over the active particles: instances at i as bare equalities"""
+            activate(L, tag, post(sp, H, L.i, N, Na, comps))
+            cut(L, tag + ".mass_at_i", cur("m", L.i) == H("m", L.i))
+
+        def elem(lo, hi, act=None, extra=None):
+            """loop writing particles[i].v for lo<=i<hi"""
+            h = Once()
+
+            def var(L):
+                if h.first() and act:
+                    head(L, act)
+                return hi - L.i
+
+            def inv(L):
+                i = L.i
+                assume_all(L, post(sp, H, i, N, Na, comps))
+                if h.head and act and c in VEL:
+                    cut(L, act + ".written." + c, cur(c, i - 1) == sp.o(c, i - 1))
+                r = [("range", z3.And(lo <= i, i <= hi))]
+                if c in VEL:
+                    r.append(("elem_" + c, z3.Implies(between(lo, j, i), cur(c, j) == sp.o(c, j))))
+                    if extra is not None:
+                        r.append(("kept_" + c, z3.Implies(between(extra[0], j, extra[1]), cur(c, j) == sp.o(c, j))))
+                return r
+            return inv, var
+
+        def summ(tag):
+            """loop accumulating sum m_k w_k/m_0 (DH) resp. sum w_k m_k/(m_0+m_k) (WHDS) over 1<=k<N_active"""
+            h = Once()
+
+            def var(L):
+                if h.first():
+                    head(L, tag)
+                return Na - L.i
+
+            def inv(L):
+                i = L.i
+                sp.at(L, i, comps)
+                assume_all(L, post(sp, H, i, N, Na, comps))
+                r = [("range", z3.And(1 <= i, i <= Na))]
+                if c in VEL:
+                    r.append((acc0(c), L[acc0(c)] == vel_sum(sp, c, i, Na)))
+                return r
+            return inv, var
+
+        if whds:
+            i0, v0 = elem(1, Na, act=fn + ".loop0")
+            i1, v1 = elem(Na, N, extra=(1, Na))
+            i2, v2 = summ(fn + ".loop2")
+            v.loop(fn, 0, invariant=i0, variant=v0)
+            v.loop(fn, 1, invariant=i1, variant=v1)
+            v.loop(fn, 2, invariant=i2, variant=v2)
+        else:
+            i0, v0 = elem(1, N)
+            i1, v1 = summ(fn + ".loop1")
+            v.loop(fn, 0, invariant=i0, variant=v0)
+            v.loop(fn, 1, invariant=i1, variant=v1)
+        v.call(fn, parts.ptr, ph.ptr, N, Na)
+        v.prove("recovered.slot0." + c, cur(c, 0) == sp.o(c, 0))
+        v.assume(1 <= j, j < N)
+        v.prove("recovered." + c, cur(c, j) == sp.o(c, j))
+        if c == "x":
+            mass_post(v, sp, cur, old, j, Na)
+            frame(v, parts, old, POS + VEL + ("m",), N)
+    return _
+
+
+for _sys in ("democraticheliocentric", "whds"):
+    for _c in POS:
+        helio_inverse_pos_task(_sys, _c)
+    for _c in POS + VEL:
+        helio_inverse_posvel_task(_sys, _c)
+
+
+# =====================================================================================================
+# barycentric
+@P.task("barycentric.inertial_to_barycentric_posvel", fn=PRE + "inertial_to_barycentric_posvel")
+def _(v):
+    fn = PRE + "inertial_to_barycentric_posvel"
+    comps = POS + VEL
+    N, Na, parts, pb = setup(v, ["P", "B"])
+    sp = Spec(arrays(parts, comps), parts.array("m"))
+    old = arrays(pb, FIELDS)
+    H = mem(pb)
+    j = v.int("j")
+    sp.define(v, comps)
+    v.assume(sp.M(Na) != 0)
+
+    def inv0(L):                          # sums over active particles 1..N_active-1, slot 0 holds m_0 c_0 meanwhile
+        i = L.i
+        sp.at(L, i, comps)
+        r = [("range", z3.And(1 <= i, i <= Na)), ("s_m", L.s_m == sp.M(i) - sp.M(1))]
+        r += [("s_" + c, L["s_" + c] == sp.S(c, i) - sp.S(c, 1)) for c in comps]
+        r += [("slot0_" + c, H(c, 0) == sp.m(0) * sp.o(c, 0)) for c in comps]
+        r += [("slot0_m", H("m", 0) == sp.m(0)),
+              ("mass_j", z3.Implies(between(1, j, i), H("m", j) == sp.m(j))),
+              ("mass_frame_j", z3.Implies(z3.And(j >= i, j >= 1), H("m", j) == z3.Select(old["m"], j)))]
+        return r
+    v.loop(fn, 0, invariant=inv0, variant=lambda L: Na - L.i)
+
+    def inv1(L):
+        i = L.i
+        return [("range", z3.And(1 <= i, i <= N))] + slot0_post(sp, H, Na, comps) + \
+               [(nm, z3.Implies(j < i, f)) for nm, f in bary_post(sp, H, j, N, Na, comps) if nm != "mass"] + \
+               [("mass_j", z3.Implies(between(1, j, Na), H("m", j) == sp.m(j))),
+                ("mass_frame_j", z3.Implies(z3.And(j >= Na, j >= 1), H("m", j) == z3.Select(old["m"], j)))]
+    v.loop(fn, 1, invariant=inv1, variant=lambda L: N - L.i)
+    v.call(fn, parts.ptr, pb.ptr, N, Na)
+    prove_all(v, "", slot0_post(sp, H, Na, comps))
+    v.assume(1 <= j, j < N)
+    prove_all(v, "", bary_post(sp, H, j, N, Na, comps))
+    v.prove("mass.test_unchanged", z3.Implies(j >= Na, H("m", j) == z3.Select(old["m"], j)))
+    frame(v, pb, old, comps + ("m",), N)
+
+
+BARY_INV = {"posvel": POS + VEL, "pos": POS, "acc": ACC}
+
+
+def bary_inverse_task(variant, c):
+    fn = PRE + "barycentric_to_inertial_" + variant
+    comps = (c,)
+
+    @P.task("barycentric.barycentric_to_inertial_%s.roundtrip.%s" % (variant, c), fn=fn)
+    def _(v):
+        N, Na, parts, pb = setup(v, ["P", "B"])
+        O = free_arrays("O", comps)
+        Om = z3.Array("O.m", I, R)
+        sp = Spec(O, Om)
+        old = arrays(parts, FIELDS)
+        H = frozen(arrays(pb, comps + ("m",)))
+        cur = mem(parts)
+        j = v.int("j")
+        sp.define(v, comps)
+        v.assume(sp.M(Na) != 0, sp.m(0) != 0)
+        assume_all(v, slot0_post(sp, H, Na, comps))
+        assume_all(v, bary_post(sp, H, j, N, Na, comps))
+        h = Once()
+
+        def var(L):
+            if h.first():
+                activate(L, fn + ".loop0", bary_post(sp, H, L.i, N, Na, comps))
+            return N - L.i
+
+        def upto(f, i):
+            """prefix sum up to min(i, N_active)"""
+            return z3.If(i <= Na, f(i), f(Na))
+
+        def inv(L):
+            i = L.i
+            sp.at(L, i, comps)
+            assume_all(L, bary_post(sp, H, i, N, Na, comps))
+            if h.head:
+                cut(L, fn + ".loop0.written." + c, cur(c, i - 1) == sp.o(c, i - 1))
+            return [("range", z3.And(1 <= i, i <= N)),
+                    ("s_m", L.s_m == upto(sp.M, i) - sp.M(1)),
+                    ("s_" + c, L["s_" + c] == upto(lambda n: sp.S(c, n), i) - sp.S(c, 1)),
+                    ("slot0_" + c, cur(c, 0) == H("m", 0) * H(c, 0)),
+                    ("slot0_m", cur("m", 0) == H("m", 0)),
+                    ("elem_" + c, z3.Implies(between(1, j, i), cur(c, j) == sp.o(c, j))),
+                    ("mass_j", z3.Implies(z3.And(1 <= j, j < i, j < Na), cur("m", j) == sp.m(j))),
+                    ("mass_frame_j", z3.Implies(z3.And(1 <= j, z3.Or(j >= i, j >= Na)), cur("m", j) == z3.Select(old["m"], j)))]
+        v.loop(fn, 0, invariant=inv, variant=var)
+        v.call(fn, parts.ptr, pb.ptr, N, Na)
+        v.prove("recovered.slot0." + c, cur(c, 0) == sp.o(c, 0))
+        v.prove("recovered.slot0.m", cur("m", 0) == sp.m(0))
+        v.assume(1 <= j, j < N)
+        v.prove("recovered." + c, cur(c, j) == sp.o(c, j))
+        if c == BARY_INV[variant][0]:
+            v.prove("mass.active_from_transformed_set", z3.Implies(j < Na, cur("m", j) == sp.m(j)))
+            v.prove("mass.test_unchanged", z3.Implies(j >= Na, cur("m", j) == z3.Select(old["m"], j)))
+            frame(v, parts, old, BARY_INV[variant] + ("m",), N)
+    return _
+
+
+for _variant in BARY_INV:
+    for _c in BARY_INV[_variant]:
+        bary_inverse_task(_variant, _c)
+
+
+# =====================================================================================================
+# in-place democratic heliocentric transformations of MERCURIUS and TRACE
+#   forward : q_k = x_k - x_0, w_k = v_k - COM_v(N_active) for EVERY k (slot 0 becomes (0, v_0 - COM_v)); the centre of
+#             mass goes to ri_<integrator>.com_pos / com_vel instead of slot 0; masses untouched
+#   inverse : recovers O from (q_k, w_k)_{k>=1}, com_pos, com_vel and the masses; ignores slot 0
+INPLACE = {"mercurius": "src/integrator_mercurius.c", "trace": "src/integrator_trace.c"}
+XYZ = {"x": "x", "y": "y", "z": "z", "vx": "x", "vy": "y", "vz": "z"}
+
+
+def fld(L, name, f):
+    """field f of the struct-valued local `name`"""
+    return L.eng._lazy_field(L[name], f, L.st)
+
+
+def inplace_post(sp, H, k, N, Na, comps):
+    r = []
+    for c in comps:
+        ref = sp.o(c, 0) if c in POS else sp.com(c, Na)
+        r.append(("dh." + c, z3.Implies(between(0, k, N), H(c, k) == sp.o(c, k) - ref)))
+    return r
+
+
+def inplace_setup(v, integ):
+    N = v.int("N")
+    nact, tpt = v.int("N_active_field"), v.int("testparticle_type")
+    parts = v.array(T, N, "P")
+    r, rp = v.struct_obj("struct reb_simulation", "r")
+    r.N, r.N_active, r.testparticle_type, r.particles = N, nact, tpt, parts.ptr
+    Na = z3.If(z3.Or(nact == -1, tpt == 1), N, nact)          # what the property calls the active/test split
+    v.assume(1 <= Na, Na <= N)
+    ri = getattr(r, "ri_" + integ)
+    return N, Na, parts, r, rp, ri
+
+
+def inplace_forward_task(integ):
+    fn = "reb_integrator_%s_inertial_to_dh" % integ
+    comps = POS + VEL
+
+    @P.task("inplace.%s_inertial_to_dh" % integ, fn=fn, files=[INPLACE[integ]])
+    def _(v):
+        N, Na, parts, r, rp, ri = inplace_setup(v, integ)
+        old = arrays(parts, FIELDS)
+        sp = Spec(old, old["m"])
+        H = mem(parts)
+        j = v.int("j")
+        sp.define(v, comps)
+        v.assume(sp.M(Na) != 0)
+
+        def inv0(L):
+            i = L.i
+            sp.at(L, i, comps)
+            return [("range", z3.And(0 <= i, i <= Na)), ("mtot", L.mtot == sp.M(i))] + \
+                   [("com_" + c, fld(L, "com_pos" if c in POS else "com_vel", XYZ[c]) == sp.S(c, i)) for c in comps]
+        v.loop(fn, 0, invariant=inv0, variant=lambda L: Na - L.i)
+
+        def inv1(L):                       # downwards, slot 0 last (it is read by every iteration)
+            i = L.i
+            r_ = [("range", z3.And(-1 <= i, i <= N - 1))]
+            for c in comps:
+                r_.append(("done_" + c, z3.Implies(z3.And(i < j, j < N), inplace_post(sp, H, j, N, Na, (c,))[0][1])))
+                r_.append(("todo_" + c, z3.Implies(z3.And(0 <= j, j <= i), H(c, j) == sp.o(c, j))))
+                if c in POS:
+                    r_.append(("slot0_" + c, z3.Implies(i >= 0, H(c, 0) == sp.o(c, 0))))
+            return r_
+        v.loop(fn, 1, invariant=inv1, variant=lambda L: L.i + 1)
+        v.call(fn, rp)
+        for c in comps:
+            got = getattr(ri.com_pos if c in POS else ri.com_vel, XYZ[c])
+            v.prove("com." + c, got == sp.com(c, Na))
+        v.assume(0 <= j, j < N)
+        prove_all(v, "", inplace_post(sp, H, j, N, Na, comps))
+        frame(v, parts, old, comps, N)
+    return _
+
+
+def inplace_inverse_task(integ, c):
+    fn = "reb_integrator_%s_dh_to_inertial" % integ
+    comps = (c,)
+
+    @P.task("inplace.%s_dh_to_inertial.roundtrip.%s" % (integ, c), fn=fn, files=[INPLACE[integ]])
+    def _(v):
+        N, Na, parts, r, rp, ri = inplace_setup(v, integ)
+        old = arrays(parts, FIELDS)
+        O = free_arrays("O", comps)
+        sp = Spec(O, old["m"])
+        H = frozen(old)
+        cur = mem(parts)
+        j = v.int("j")
+        sp.define(v, comps)
+        v.assume(sp.M(Na) != 0, sp.m(0) != 0)
+        # hypothesis = forward post-condition
+        v.assume(getattr(ri.com_pos if c in POS else ri.com_vel, XYZ[c]) == sp.com(c, Na))
+        assume_all(v, inplace_post(sp, H, j, N, Na, comps))
+        h = Once()
+
+        def var0(L):
+            if h.first():
+                activate(L, fn + ".loop0", inplace_post(sp, H, L.i, N, Na, comps))
+            return Na - L.i
+
+        def inv0(L):
+            i = L.i
+            sp.at(L, i, comps)
+            assume_all(L, inplace_post(sp, H, i, N, Na, comps))
+            ref = sp.o(c, 0) if c in POS else sp.com(c, Na)
+            return [("range", z3.And(1 <= i, i <= Na)), ("temp_m", fld(L, "temp", "m") == sp.M(i) - sp.M(1)),
+                    ("temp_" + c, fld(L, "temp", c) == sp.S(c, i) - sp.S(c, 1) - (sp.M(i) - sp.M(1)) * ref)]
+        v.loop(fn, 0, invariant=inv0, variant=var0)
+
+        def inv1(L):
+            i = L.i
+            r_ = [("range", z3.And(1 <= i, i <= N)),
+                  ("elem_" + c, z3.Implies(between(1, j, i), cur(c, j) == sp.o(c, j))),
+                  ("todo_" + c, z3.Implies(j >= i, cur(c, j) == H(c, j)))]
+            if c in POS:
+                r_.append(("slot0_" + c, cur(c, 0) == sp.o(c, 0)))
+            return r_
+        v.loop(fn, 1, invariant=inv1, variant=lambda L: N - L.i)
+        v.call(fn, rp)
+        v.prove("recovered.slot0." + c, cur(c, 0) == sp.o(c, 0))
+        v.assume(1 <= j, j < N)
+        v.prove("recovered." + c, cur(c, j) == sp.o(c, j))
+        if c == "x":
+            frame(v, parts, old, POS + VEL, N)
+    return _
+
+
+for _integ in INPLACE:
+    inplace_forward_task(_integ)
+    for _c in POS + VEL:
+        inplace_inverse_task(_integ, _c)
+
+
+# =====================================================================================================
+# reb_simulation_move_to_hel (tools.c): heliocentric frame for the real particles, variational ones untouched
+@P.task("tools.reb_simulation_move_to_hel", fn="reb_simulation_move_to_hel", files=["src/tools.c"])
+def _(v):
+    fn = "reb_simulation_move_to_hel"
+    comps = POS + VEL
+    N, Nvar = v.int("N"), v.int("N_var")
+    parts = v.array(T, N, "P")
+    r, rp = v.struct_obj("struct reb_simulation", "r")
+    r.N, r.N_var, r.particles = N, Nvar, parts.ptr
+    Nreal = N - Nvar
+    v.assume(N >= 0, Nvar >= 0, Nvar <= N)
+    old = arrays(parts, FIELDS)
+    H = mem(parts)
+    j = v.int("j")
+
+    def inv(L):
+        i = L.i
+        r_ = [("range", z3.And(1 <= i, i <= Nreal))]
+        for c in comps:
+            r_ += [("hel_" + c, fld(L, "hel", c) == z3.Select(old[c], 0)),
+                   ("done_" + c, z3.Implies(between(1, j, i), H(c, j) == z3.Select(old[c], j) - z3.Select(old[c], 0))),
+                   ("todo_" + c, z3.Implies(z3.Or(j >= i, j < 1), H(c, j) == z3.Select(old[c], j)))]
+        return r_
+    v.loop(fn, 0, invariant=inv, variant=lambda L: Nreal - L.i)
+    v.call(fn, rp)
+    v.assume(0 <= j, j < N)
+    for c in comps:
+        v.prove("real_particles." + c, z3.Implies(j < Nreal, H(c, j) == z3.Select(old[c], j) - z3.Select(old[c], 0)))
+        v.prove("variational_untouched." + c, z3.Implies(j >= Nreal, H(c, j) == z3.Select(old[c], j)))
+    frame(v, parts, old, comps, N)
+
+
+P.not_decided.append("reb_simulation_move_to_com (tools.c): not attempted in this pack -- the centre of mass is accumulated "
+                     "by reb_particle_com_of_pair with a sign-dependent renormalisation in every step and the function also "
+                     "shifts first/second-order variational particles; it is planned together with C20/C04")
+P.not_decided.append("rounding: all statements are over the reals; 'returns the original positions and velocities to "
+                     "rounding error' is proved as exact equality in real arithmetic, no floating-point error bound")
+P.not_decided.append("unsigned wrap-around is not modelled by the engine (C integers are mathematical integers); for the two "
+                     "downward loops of jacobi_to_inertial_* the invariant range_nowrap proves 0 <= i at every decrement "
+                     "under N_active>=1, N>=N_active (for N_active=0 the counter N_active-1 wraps: outside the property's "
+                     "quantifier and excluded by the precondition)")
+
+
+# =====================================================================================================
+# the variants agree with one another: lemmas stated over the contracts (post-conditions) proved above
+@P.task("variants_agree", fn=None)
+def _(v):
+    N, Na = v.int("N"), v.int("N_active")
+    k = v.int("k")
+    v.assume(1 <= Na, Na <= N, 0 <= k, k < N)
+    O = free_arrays("O", ALL)
+    sp = Spec(O, z3.Array("O.m", I, R))
+
+    def res(name):
+        return frozen(free_arrays(name, ALL + ("m",)))
+    A, B, C = res("A"), res("B"), res("C")
+
+    def full(post, H, comps, with_m=True, **kw):
+        """contract of a forward variant on components comps at an arbitrary slot k (slot 0 included)"""
+        return [z3.Implies(k == 0, f) for _n, f in slot0_post(sp, H, Na, comps, with_m=with_m)] + \
+               [f for _n, f in post(sp, H, k, N, Na, comps, **kw)]
+    # Jacobi: posvelacc (A) == posvel (B) on positions/velocities/mass slot 0, == acc (C) on accelerations
+    hy = full(jacobi_post, A, POS + VEL + ACC) + full(jacobi_post, B, POS + VEL) + full(jacobi_post, C, ACC, with_m=False)
+    for c in POS + VEL:
+        v.lemma("jacobi.posvelacc_vs_posvel." + c, hy, A(c, k) == B(c, k))
+    v.lemma("jacobi.posvelacc_vs_posvel.total_mass", hy, z3.Implies(k == 0, A("m", k) == B("m", k)))
+    for c in ACC:
+        v.lemma("jacobi.posvelacc_vs_acc." + c, hy, A(c, k) == C(c, k))
+    # inverse variants: every variant recovers O on its components, so any two agree where they overlap
+    for system, variants in (("jacobi", ("posvel", "pos")), ("democraticheliocentric", ("posvel", "pos")),
+                             ("whds", ("posvel", "pos")), ("barycentric", ("posvel", "pos"))):
+        hy = [A(c, k) == sp.o(c, k) for c in POS + VEL] + [B(c, k) == sp.o(c, k) for c in POS]
+        for c in POS:
+            v.lemma("%s.to_inertial_%s_vs_%s.%s" % (system, variants[0], variants[1], c), hy, A(c, k) == B(c, k))
+    # WHDS and democratic heliocentric carry the same positions and slot 0 (whds_to_inertial_pos calls the DH routine)
+    hy = full(dh_post, A, POS + VEL) + full(whds_post, B, POS + VEL)
+    for c in POS:
+        v.lemma("whds_vs_dh.positions." + c, hy, A(c, k) == B(c, k))
+    for c in VEL:
+        v.lemma("whds_vs_dh.slot0_and_test_particles." + c, hy, z3.Implies(z3.Or(k == 0, k >= Na), A(c, k) == B(c, k)))
+    # all four systems carry the same slot 0
+    hy = full(jacobi_post, A, POS + VEL) + full(bary_post, B, POS + VEL) + full(dh_post, C, POS + VEL)
+    for c in POS + VEL + ("m",):
+        v.lemma("slot0_same_in_all_systems." + c, hy, z3.Implies(k == 0, z3.And(A(c, k) == B(c, k), B(c, k) == C(c, k))))
